@@ -1,0 +1,97 @@
+//go:build verif
+// +build verif
+
+package nitro
+
+import (
+	"unsafe"
+
+	"github.com/couchbase/nitro/skiplist"
+)
+
+// Verification yield points. With the "verif" build tag every point calls
+// VerifHook (if set); a hook may block, which lets a test harness schedule
+// goroutines deterministically, and may log, which records traces.
+const (
+	vpGCSend = iota
+	vpGCListBegin
+	vpGCListEnd
+	vpFreeListBegin
+	vpFreeListEnd
+	vpSnapOpenMid
+	vpSnapCloseDec
+	vpSnapCloseMoved
+	vpGCLocked
+	vpGCUnlocked
+	vpDelNodeEntry
+	vpDelNodeCAS
+	vpDelNodeAppend
+	vpDelNodeFlush
+	vpGetNodeRet
+	vpPutInsert
+)
+
+// Exported names of the yield points for harnesses.
+const (
+	VPGCSend         = vpGCSend
+	VPGCListBegin    = vpGCListBegin
+	VPGCListEnd      = vpGCListEnd
+	VPFreeListBegin  = vpFreeListBegin
+	VPFreeListEnd    = vpFreeListEnd
+	VPSnapOpenMid    = vpSnapOpenMid
+	VPSnapCloseDec   = vpSnapCloseDec
+	VPSnapCloseMoved = vpSnapCloseMoved
+	VPGCLocked       = vpGCLocked
+	VPGCUnlocked     = vpGCUnlocked
+	VPDelNodeEntry   = vpDelNodeEntry
+	VPDelNodeCAS     = vpDelNodeCAS
+	VPDelNodeAppend  = vpDelNodeAppend
+	VPDelNodeFlush   = vpDelNodeFlush
+	VPGetNodeRet     = vpGetNodeRet
+	VPPutInsert      = vpPutInsert
+)
+
+// VerifHook is called at every yield point when non-nil. Set it before
+// creating instances and do not change it while they are in use.
+var VerifHook func(pt int, m *Nitro, a, b unsafe.Pointer)
+
+func verifYield(pt int, m *Nitro, a, b unsafe.Pointer) {
+	if h := VerifHook; h != nil {
+		h(pt, m, a, b)
+	}
+}
+
+// VerifStore exposes the main skiplist (read-only use by harnesses).
+func (m *Nitro) VerifStore() *skiplist.Skiplist { return m.store }
+
+// VerifSnapLists exposes the live and retired snapshot lists.
+func (m *Nitro) VerifSnapLists() (*skiplist.Skiplist, *skiplist.Skiplist) {
+	return m.snapshots, m.gcsnapshots
+}
+
+// VerifQueues returns the number of queued garbage lists and free lists.
+func (m *Nitro) VerifQueues() (int, int) { return len(m.gcchan), len(m.freechan) }
+
+// VerifItemSn returns the born and dead snapshot numbers of an item.
+func VerifItemSn(p unsafe.Pointer) (uint32, uint32) {
+	itm := (*Item)(p)
+	return itm.bornSn, itm.deadSn
+}
+
+// VerifItemBytes returns the data bytes of an item.
+func VerifItemBytes(p unsafe.Pointer) []byte { return (*Item)(p).Bytes() }
+
+// VerifSnapInfo returns the number, reference count and garbage list head of a snapshot.
+func VerifSnapInfo(s *Snapshot) (uint32, int32, *skiplist.Node) { return s.sn, s.refCount, s.gclist }
+
+// VerifSnapOf converts a snapshot item pointer (as passed to hooks).
+func VerifSnapOf(p unsafe.Pointer) *Snapshot { return (*Snapshot)(p) }
+
+// VerifNewFileWriter returns a backup file writer of the instance.
+func (m *Nitro) VerifNewFileWriter() FileWriter { return m.newFileWriter(m.fileType) }
+
+// VerifNewFileReader returns a backup file reader for the given format version.
+func (m *Nitro) VerifNewFileReader(ver int) FileReader { return m.newFileReader(m.fileType, ver) }
+
+// VerifNewItem allocates an item holding data (Go-managed memory).
+func (m *Nitro) VerifNewItem(data []byte) *Item { return m.newItem(data, false) }
